@@ -88,7 +88,7 @@ CLAIMED = {
          "DESIGN.md §7 C20"),
 }
 # checks that are built but whose clean-sweep validation on the unchanged tree is not finished are not claimed yet
-NOT_YET_VALIDATED = {"C03"}
+NOT_YET_VALIDATED = set()
 for k in NOT_YET_VALIDATED:
     CLAIMED.pop(k, None)
 PENDING_REASON = "check is built (harness/checks) but its clean-sweep validation on the unchanged tree is not finished at this commit, so it is not claimed yet"
